@@ -318,3 +318,27 @@ Theorem C14_oversize_chunk_rejected :
          (Files.f_raw_size f > Files.l_chunk L)%Z -> Files.get_prov_files L r = None.
 Proof. exact oversize_chunk_rejected. Qed.
 Print Assumptions C14_oversize_chunk_rejected.
+
+From SV Require Import Batch.PerType.
+Local Close Scope Z_scope.
+
+(* non-vacuity of C14_oversize_chunk_rejected: a concrete state (an object of 511 bytes named as first chunk file, chunk-file limit 510, core-index limit it would meet) satisfies the hypotheses *)
+Theorem C14_two_roles_nonvacuous :
+  Files.read_ref (ex_L 510) (Files.l_prov_index (ex_L 510)) ex_pi_ref = Some ex_pi /\
+         (Files.f_raw_size ex_chunk_raw > Files.l_chunk (ex_L 510))%Z /\
+         (Files.f_raw_size ex_chunk_raw <= Files.l_core_index (ex_L 510))%Z.
+Proof. exact ex_two_roles_hypotheses. Qed.
+Print Assumptions C14_two_roles_nonvacuous.
+
+(* and is refused *)
+Theorem C14_two_roles_refused :
+  Files.get_prov_files (ex_L 510) ex_pi_ref = None.
+Proof. exact ex_two_roles_refused. Qed.
+Print Assumptions C14_two_roles_refused.
+
+(* while the same state is read under a limit equal to the size (the limit is inclusive) *)
+Theorem C14_two_roles_read_at_the_limit :
+  exists (pp : option Files.prov_proof_file) (ch : Files.chunk_file),
+           Files.get_prov_files (ex_L 511) ex_pi_ref = Some (ex_pi, pp, ch).
+Proof. exact ex_two_roles_read_at_the_limit. Qed.
+Print Assumptions C14_two_roles_read_at_the_limit.
